@@ -40,10 +40,11 @@ def run(rep, tier):
     dense.r_seg_per_query(rep, f)
     rep.rule("R-SPAN-ENDS", "ContinuousOutput::t_span() is (first segment's xold, last segment's xold + h) in the order of integration (symbolic, dense.rs helpers interpreted in place)")
     dense.r_span_ends(rep, f)
-    rep.rule("R-BDF-DENSE", "BDF dense block: for every order the slots BDF::solve fills with backward differences are exactly the slots BDF::interpolate sums, slot s holding D_s (finite evaluation of the writer's guard and the reader's range)")
-    dense.r_bdf_dense(rep, f)
     rep.rule("R-BDF-INTERP", "BDF: with the dense block solve() stores, interpolate() passes through the last k+1 solution values: u(x) = y_new, u(xold) = y_old, u(x - m h) = y_(n+1-m)")
     import bdfx
     bdfx.r_bdf_interp(rep, f)
+    rep.rule("R-BDF-DENSE", "BDF dense block: for every order the slots BDF::solve fills with backward differences are exactly the slots BDF::interpolate sums, slot s holding D_s (finite evaluation of the writer's guard and the reader's range)")
+    interp_decided = any(r_ == "R-BDF-INTERP" for r_, k_, d_ in rep.discharged) and not any(x["rule"] == "R-BDF-INTERP" for x in rep.inconclusive)
+    dense.r_bdf_dense(rep, f, semantic_backup=interp_decided)
     rep.explanation = "End-point identities of every step interpolant (explicit methods) at proof level; segment = step taken."
     rep.trusted_base = ["rustc nightly HIR/typeck", "driver/ivp-facts", "engine/symx.py"]
